@@ -251,7 +251,7 @@ pub fn run(ctx: &Ctx, st: &mut Stats) {
         }
     }
     // all dates, all seconds
-    let stride = ctx.tier.pick(400_009, 11, 1);
+    let stride = ctx.tier.pick(400_009, ctx.q(11, 1), 1);
     ctx.par(st, "all dates (Date) through JSON and bincode", true, 0, (N_DAYS as i64 + stride - 1) / stride, |st, i, _| {
         let (y, m, d) = cal().of(MIN_DAY + (i * stride) as i32);
         st.eval(&S::Rt(V::Date(y, m, d)), check);
